@@ -284,22 +284,25 @@ Proof. exact pool_backed_forever_inv. Qed.
 Print Assumptions C16_every_reachable_state_from_invariant.
 
 (* ---- from the beginning of a chain.  [Unborn K SO k s]: pool k does not exist and fewer than 10^9 of its
-   liquidity tokens do (in coins or parked in reserves) - as in a genesis state.  The first seal creates the
-   MEL/SYM and MEL/ERG pools with 10^9 of liquidity that nobody owns, so they are born live and backed with room. *)
+   liquidity tokens do (in coins or parked in reserves) - as in a genesis state - and, for ERG/SYM, TIP-902 is
+   active (it always is off mainnet / testnet), so that the next seal creates the pool.  The first seal creates the
+   built-in pools with 10^9 of liquidity that nobody owns, so they are born live and backed with room. *)
 Theorem C16_unborn_def : forall K SO k s,
-  Unborn K SO k s <-> get_pool s k = None /\ coin_supply (LDk SO k) (s_coins s) + psum K (LDk SO k) s + 1 <= MICRO * 1000.
+  Unborn K SO k s <-> get_pool s k = None /\ coin_supply (LDk SO k) (s_coins s) + psum K (LDk SO k) s + 1 <= MICRO * 1000 /\
+                    (k = ES -> tip_902 s = true).
 Proof. exact unborn_def. Qed.
 Print Assumptions C16_unborn_def.
 Theorem C16_born_backed_def : forall K SO k s, BornBacked K SO k s <-> Backed K SO k s \/ Unborn K SO k s.
 Proof. exact born_backed_def. Qed.
 Print Assumptions C16_born_backed_def.
 Theorem C16_genesis_has_no_pool : forall K SO k net c fee_pool mult stakes,
-  cd_denom (c_data c) <> LDk SO k -> Unborn K SO k (genesis net c fee_pool mult stakes).
+  cd_denom (c_data c) <> LDk SO k -> (k = ES -> net <> MAINNET /\ net <> TESTNET) ->
+  Unborn K SO k (genesis net c fee_pool mult stakes).
 Proof. exact genesis_unborn. Qed.
 Print Assumptions C16_genesis_has_no_pool.
 Theorem C16_first_seal_creates_backed_pool : forall K, NoDup (map poolkey_code K) -> forall SO, In MS K /\ In ME K /\ In ES K ->
   (forall k1 k2, In k1 K -> In k2 K -> LDk SO k1 = LDk SO k2 -> k1 = k2) ->
-  forall k, k = MS \/ k = ME -> forall s a s',
+  forall k, k = MS \/ k = ME \/ k = ES -> forall s a s',
   seal SO s a = Ok s' -> Unborn K SO k s -> seal_premises K SO s -> Backed K SO k s'.
 Proof. exact seal_births_backed. Qed.
 Print Assumptions C16_first_seal_creates_backed_pool.
@@ -307,7 +310,7 @@ Print Assumptions C16_first_seal_creates_backed_pool.
    still unborn, or it exists, is live and is backed *)
 Theorem C16_builtin_pool_in_every_history : forall K, NoDup (map poolkey_code K) -> forall SO, In MS K /\ In ME K /\ In ES K ->
   (forall k1 k2, In k1 K -> In k2 K -> LDk SO k1 = LDk SO k2 -> k1 = k2) ->
-  forall k, k = MS \/ k = ME -> forall ops s,
+  forall k, k = MS \/ k = ME \/ k = ES -> forall ops s,
   Good2 s -> BornBacked K SO k s -> hist_all SO (pool_bounds_step_ok K SO k) s ops ->
   BornBacked K SO k (fold_left (hstep SO) ops s).
 Proof. exact born_backed_forever. Qed.
@@ -315,7 +318,7 @@ Print Assumptions C16_builtin_pool_in_every_history.
 (* and from the first sealed block on it exists, is live and is backed - in every later state *)
 Theorem C16_builtin_pool_after_first_block : forall K, NoDup (map poolkey_code K) -> forall SO, In MS K /\ In ME K /\ In ES K ->
   (forall k1 k2, In k1 K -> In k2 K -> LDk SO k1 = LDk SO k2 -> k1 = k2) ->
-  forall k, k = MS \/ k = ME -> forall ops1 a hdr ops2 s sealed,
+  forall k, k = MS \/ k = ME \/ k = ES -> forall ops1 a hdr ops2 s sealed,
   Good2 s -> BornBacked K SO k s ->
   hist_all SO (pool_bounds_step_ok K SO k) s (ops1 ++ HBlock a hdr :: ops2) ->
   seal SO (fold_left (hstep SO) ops1 s) a = Ok sealed ->
@@ -324,7 +327,7 @@ Proof. exact backed_after_first_block. Qed.
 Print Assumptions C16_builtin_pool_after_first_block.
 (* non-vacuity: the premises hold on the history of STF/Proofs/Witness5.v *)
 Theorem C16_born_witness :
-  Unborn w_K3 w_oracle MS w_state /\
+  Unborn w_K3 w_oracle MS w_state /\ Unborn w_K3 w_oracle ES w_state /\
   hist_all w_oracle (pool_bounds_step_ok w_K3 w_oracle MS) w_state ([HBatch w_header w_batch] ++ HBlock (Some w_action) w_header :: []) /\
   (exists sealed, seal w_oracle (fold_left (hstep w_oracle) [HBatch w_header w_batch] w_state) (Some w_action) = Ok sealed).
 Proof. exact w_born. Qed.
